@@ -36,6 +36,9 @@ type qgen struct {
 	t     *rapid.T
 	facts []M
 	n     int
+	// ruleMode: the query is the condition of a rule (which is then a
+	// fact of the location itself).
+	ruleMode bool
 }
 
 func copySet(s map[string]bool) map[string]bool {
@@ -63,6 +66,21 @@ func (g *qgen) query(depth int, bound map[string]bool) (M, map[string]bool) {
 			p = gen.Derive(g.t, po, rapid.SampledFrom(g.facts).Draw(g.t, l+".from"), l+".pat")
 		} else {
 			p = gen.Pattern(g.t, po, 1, l+".pat")
+		}
+		if g.ruleMode && len(p) == 1 {
+			// In rule mode the rule itself is a fact of the location,
+			// and it is full of variable-looking strings.  A pattern
+			// that is one property variable at the top matches that
+			// fact ({"?z":"?y"}: ?z = "rule", ?y = the rule's body),
+			// and what is bound then sends the matcher dependency
+			// into unbounded recursion (the known finding
+			// matcher-recursion-on-variable-data, see C13).  Such
+			// patterns are put under a constant key instead.
+			for k := range p {
+				if refmatch.IsVar(k) {
+					p = M{"c": p}
+				}
+			}
 		}
 		nb := copySet(bound)
 		vs := map[string]bool{}
@@ -239,7 +257,7 @@ func genC03(t *rapid.T) c03Case {
 		}).Draw(t, "badquery")
 		return c
 	}
-	g := &qgen{t: t, facts: all}
+	g := &qgen{t: t, facts: all, ruleMode: len(c.Incoming) > 0}
 	c.Query, _ = g.query(rapid.IntRange(0, 3).Draw(t, "depth"), bound)
 	return c
 }
